@@ -528,6 +528,13 @@ Problem build_problem(json const& pj, json const& cj, unsigned max_streams)
         prob.action_ids[lab] = aid.get();
         prob.action_labels.push_back(lab);
     }
+    prob.is_model_action.assign(prob.action_labels.size(), false);
+    for (auto mid : range(ModelId{physics->num_models()}))
+    {
+        auto aid = physics->model(mid)->action_id();
+        if (aid && aid.get() < prob.is_model_action.size())
+            prob.is_model_action[aid.get()] = true;
+    }
     prob.slots = cj.at("slots");
     return prob;
 }
